@@ -78,6 +78,14 @@ class Run:
         except Exception as e:
             raise Inconclusive('MIR dump could not be read: ' + repr(e))
 
+    def setup_macros(s):
+        """for checks on the proc-macro crate alone: no device crate, no replay binary"""
+        try:
+            s.paths = build.ensure_macros_only(log=s.log)
+        except build.BuildError as e:
+            raise Inconclusive('the proc-macro crate does not build: ' + str(e))
+        s.pool = explore.Pool(s.paths, os.path.join(REPO, 'microscpi', 'src'))
+
     def validate_translator(s, n_cases):
         """differential concrete runs: real code vs mirsym on the same cases"""
         cases = diffcorpus.corpus(s.seed, full=(s.tier == 'thorough'))
@@ -201,7 +209,7 @@ def main(pid, tier, seed, replay=None):
     code = 0
     try:
         if replay:
-            run.setup(release=True)
+            run.setup_macros() if getattr(mod, 'WORLD', 'micro') == 'macros' else run.setup(release=True)
             v = json.load(open(replay))
             ok, detail = mod.confirm(run, v)
             print(json.dumps(detail, indent=1, default=str))
@@ -214,7 +222,8 @@ def main(pid, tier, seed, replay=None):
             for f in os.listdir(d):
                 os.remove(os.path.join(d, f))
             os.environ['VERIF_SMT_DUMP'] = d
-        run.setup()
+        macros_only = getattr(mod, 'WORLD', 'micro') == 'macros'
+        run.setup_macros() if macros_only else run.setup()
         result = mod.check(run)        # -> dict(violations=[...], exhaustive=bool)
         run.cross_check()
         violations = result.get('violations', [])
@@ -222,7 +231,7 @@ def main(pid, tier, seed, replay=None):
         real, known_hits = [], []
         confirmed = []
         # confirm each distinct violation on the real build (dev and release) before reporting it
-        if violations:
+        if violations and not macros_only:
             try:
                 run.paths = build.ensure(release=True, log=run.log)
             except build.BuildError as e:
